@@ -14,7 +14,7 @@ import (
 
 func init() {
 	PropertyText["C04"] = [2]string{
-		"Decides the local queue's state machine as written in its SQL constants (only FRESH rows are handed out; claim/reset/delete act on one id) and the code around it: a statement that moves every CLAIMED row back to FRESH runs on every successful open of the queue, before the consumer starts (R-LQ-RECOVER); Get selects and claims inside one transaction that is committed on success and rolled back otherwise, returning exactly the selected rows (R-LQ-CLAIM-TX); Stop resets every seed the reactor still tracks, after its goroutines have left and before the reactor is stopped (R-LQ-STOP-RESET, R-STOP-ORDER); rows are deleted only for ids that came through the finish channel (R-LQ-DELETE-SOURCE); finished ⇒ captured through R-WARC-WAIT and R-FIN.",
+		"Decides the local queue's state machine as written in its SQL constants (only FRESH rows are handed out; claim/reset/delete act on one id) and the code around it: a statement that moves every CLAIMED row back to FRESH runs on every successful open of the queue, before the consumer starts (R-LQ-RECOVER); Get selects and claims inside one transaction that is committed on success and rolled back otherwise, returning exactly the selected rows (R-LQ-CLAIM-TX); Stop resets every seed the reactor still tracks, after its goroutines have left and before the reactor is stopped (R-LQ-STOP-RESET, R-STOP-ORDER); rows are deleted only for ids that came through the finish channel (R-LQ-DELETE-SOURCE); finished ⇒ captured through R-WARC-WAIT and R-FIN. A queued URL goes straight to the finish channel only when its own Parse() failed (R-CONSUMER-DISCARD); R-FIN and R-BODY-DRAIN also serve this property.",
 		"Not decided: SQLite durability/atomicity at a kill instant; readability of a truncated .open WARC; crawl HQ's own lease handling.",
 	}
 	register(&core.Rule{ID: "R-LQ-SQL", Props: []string{"C04"}, Doc: "the sqlc constants implement the intended state machine: GetFreshURLs selects status='FRESH'; ClaimThisURL sets 'CLAIMED' by id; ResetURL sets 'FRESH' by id; DeleteURL deletes by id; AddURL inserts without a status (schema default FRESH)", Run: ruleLQSQL})
